@@ -337,10 +337,11 @@ def kdesc(keys, forms=None, **kw):
 
 
 class Ask:
-    """collects driver requests; answers are available after flush()"""
+    """collects driver requests; answers are available after flush().  Answers only ever feed `s.compare` (never an oracle, a
+    finding predicate or control flow); an answer a callback cannot interpret is a disagreement, not an exception."""
 
-    def __init__(self, drv):
-        self.drv, self.lines, self.cbs = drv, [], []
+    def __init__(self, drv, ck=None):
+        self.drv, self.ck, self.lines, self.cbs = drv, ck, [], []
 
     def __call__(self, line, cb):
         if self.drv is None:
@@ -351,9 +352,16 @@ class Ask:
     def flush(self):
         if self.drv is None or not self.lines:
             return
-        for cb, ans in zip(self.cbs, self.drv.batch(self.lines)):
-            cb(ans)
+        lines, cbs = self.lines, self.cbs
         self.lines, self.cbs = [], []
+        for line, cb, ans in zip(lines, cbs, self.drv.batch(lines)):
+            try:
+                cb(ans)
+            except Exception as exc:  # noqa: BLE001
+                if self.ck is None:
+                    raise
+                self.ck.disagreement("driver_answers", {"request": line[:400]}, "<an answer of the expected shape>", str(ans)[:200],
+                                     f"driver answer cannot be interpreted ({type(exc).__name__})")
 
 
 def hx(b):
@@ -382,12 +390,16 @@ def run(ck, replay_sets=None):
     logging.disable(logging.CRITICAL)
     from spsdk.utils.database import DatabaseManager, get_db, get_families
 
+    # driver ops that evaluate only Spec/Rotkh.lean (+ Crypto/): Spec.rotkhCa, Spec.keysOK, Spec.keyHash and the documented table layouts
+    # (Spec.ahabTable / ahabTableV2 / habTable / rkhTableV1 / ctrkTable).  Every other op evaluates Model/* or Generated/* (`rotrows`).
+    # No oracle of this check uses a driver answer: expectations come from spec_py / key_hash (hashlib) and the real code.
+    ck.spec_ops = {"spec", "keysok", "keyhash", "table"}
     ck.lean_obligations(generated=["RotTypes"])
     drv = ck.driver()
     rng = ck.rng
     scratch = os.environ.get("VERIF_SCRATCH") or "/tmp/C03-scratch"
     Path(scratch).mkdir(parents=True, exist_ok=True)
-    ask = Ask(drv)
+    ask = Ask(drv, ck)
     ck.assume("PEM / DER / PKCS#8 / X.509 decoding, EC point validation and RSA / ECDSA signing are `cryptography`'s (exercised with every supply form, not modelled)",
               "SHA-2 of the Lean driver is the executable reference validated by the C09 check; theorems quantify over an arbitrary hash with fixed digest lengths",
               "the CA attribute that AHAB (BasicConstraints.ca) and HAB (KeyUsage.keyCertSign) copy into their SRK records is treated as part of the key record "
@@ -398,28 +410,47 @@ def run(ck, replay_sets=None):
               "fresh RSA keys come from OpenSSL's RNG (not from VERIF_SEED): the set of evaluated cases is deterministic, the key values are not; EC keys are derived from VERIF_SEED")
 
     # ---------------------------------------------------------------- generated table vs live database (trusted-base cross-check)
-    rows = ck.generated_meta.get("RotTypes", {})
+    # the families per RoT type that steer the streams come from the LIVE database alone; the generated table (a part of the model)
+    # is only compared with it, row by row
     live_fams = sorted(get_families(DatabaseManager.CERT_BLOCK))
     by_type = {}
-    if drv is not None:
-        gen_rows = [r.split("/") for r in drv.ask("rotrows").split(";") if r]
-        seen = set()
-        for fam, rev, latest, rt, lim, al in gen_rows:
-            seen.add(fam)
+    s_db = ck.stream("rot_table", "every (family, revision) of get_families(cert_block): rot_type, isk_data_limit, isk_data_alignment and the "
+                     "'latest' revision of the live database = the row of Generated.RotTypes (exhaustive)")
+    s_db.exhaustive = True
+    live_rows = {}
+    for fam in live_fams:
+        revs = pyres(lambda: list(get_db(fam).device.revisions.revision_names()))
+        s_db.expect(revs[0] == "ok", {"family": fam}, "the database of a family that supports certificate blocks cannot be loaded", revs[0])
+        for rev in (revs[1] if revs[0] == "ok" else []):
             res = pyres(lambda: (get_db(fam, rev).get_str(DatabaseManager.CERT_BLOCK, "rot_type"),
                                  get_db(fam, rev).get_int(DatabaseManager.CERT_BLOCK, "isk_data_limit"),
                                  get_db(fam, rev).get_int(DatabaseManager.CERT_BLOCK, "isk_data_alignment"),
                                  get_db(fam, "latest").name == rev))
-            if res != ("ok", (rt, int(lim), int(al), latest == "true")):
-                raise Infra(f"generated RotTypes row {fam}/{rev} = {(rt, lim, al, latest)} but live database says {res}")
+            s_db.note((fam, rev), cls=res[1][0] if res[0] == "ok" else res[0])
+            if res[0] != "ok":
+                live_rows[(fam, rev)] = res[0]
+                continue
+            rt, lim, al, latest = res[1]
+            live_rows[(fam, rev)] = f"{fam}/{rev}/{'true' if latest else 'false'}/{rt}/{lim}/{al}"
             by_type.setdefault(rt, []).append((fam, rev))
-        if sorted(seen) != live_fams:
-            raise Infra(f"generated RotTypes families differ from get_families(cert_block): {sorted(set(live_fams) ^ seen)}")
+    if drv is not None:
+        ans = drv.ask("rotrows")
+        gen_rows = {}
+        for r in str(ans).split(";"):
+            parts = r.split("/")
+            if len(parts) == 6:
+                gen_rows[(parts[0], parts[1])] = r
+        if not gen_rows:
+            s_db.compare({"request": "rotrows"}, f"<{len(live_rows)} rows family/revision/latest/rot_type/limit/alignment>", str(ans)[:200],
+                         "the driver does not print the generated RotTypes table")
+        else:
+            for key, live in live_rows.items():
+                s_db.compare({"family": key[0], "revision": key[1]}, live, gen_rows.get(key, "<no such row>"),
+                             "generated RotTypes row differs from the live database")
+            for key in sorted(set(gen_rows) - set(live_rows)):
+                s_db.compare({"family": key[0], "revision": key[1]}, "<no such family / revision>", gen_rows[key],
+                             "generated RotTypes has a row the live database does not have")
         ck.extra["db_rows_cross_checked"] = len(gen_rows)
-    else:
-        for fam in live_fams:
-            for rev in get_db(fam).device.revisions.revision_names():
-                by_type.setdefault(get_db(fam, rev).get_str(DatabaseManager.CERT_BLOCK, "rot_type"), []).append((fam, rev))
     for rt in ("cert_block_1", "cert_block_21", "srk_table_ahab", "srk_table_ahab_v2", "srk_table_hab"):
         if not by_type.get(rt):
             raise Infra(f"no family with rot_type {rt} in the database")
@@ -836,8 +867,11 @@ def _point_ok(model_ans, real):
     if real != "E:spsdk" or not model_ans.startswith("ok:") or model_ans.endswith("| none"):
         return model_ans
     from cryptography.hazmat.primitives.asymmetric import ec
-    pk_hex = model_ans.rsplit("|", 1)[1].split()[3]
-    pk = b"" if pk_hex == "-" else bytes.fromhex(pk_hex)
+    try:
+        pk_hex = model_ans.rsplit("|", 1)[1].split()[3]
+        pk = b"" if pk_hex == "-" else bytes.fromhex(pk_hex)
+    except (IndexError, ValueError):
+        return model_ans            # not the shape of a cb21_parse_obs answer: stays a disagreement with the refusal of the real code
     curve = {64: ec.SECP256R1(), 96: ec.SECP384R1()}.get(len(pk))
     if curve is None:
         return "E:spsdk"
